@@ -323,7 +323,7 @@ class LinComb:
         if isinstance(other, int):
             if other == 0:
                 raise ValueError("Division by zero")
-            if is_guard() and (self.value % other == 0):
+            if self.value % other == 0:
                 return LinComb(self.value // other, self.lc * backend.fieldinverse(other))
             if ignore_errors():
                 inv = backend.fieldinverse(other)
